@@ -352,4 +352,7 @@ func runC01(r *run) {
 	r.extra["loggers"] = 3
 	r.extra["levels"] = levels
 	slog.VerifResetGlobals()
+	// the application replaces the states holder of the is package after start-up
+	envProbe(r, false, "states")
+	envProbe(r, true, "states")
 }
